@@ -5,8 +5,8 @@ P=$(readlink -f "$1"); D=$(readlink -f "$2")
 W=/tmp/confirm-wt-$$
 git -C /repo worktree add -f --detach "$W" HEAD >/dev/null 2>&1 || { echo "worktree failed"; exit 2; }
 cd "$W"
-echo "== demo on unchanged code (want exit 0)"; PYTHONPATH="$W" PYTHONDONTWRITEBYTECODE=1 /venv/bin/python -W ignore "$D" >/tmp/confirm.out 2>&1; echo "exit=$?"; tail -2 /tmp/confirm.out
+echo "== demo on unchanged code (want exit 0)"; PYTHONPATH="$W" PYTHONDONTWRITEBYTECODE=1 /venv/bin/python -W ignore "$D" >/tmp/confirm.$$.out 2>&1; echo "exit=$?"; tail -2 /tmp/confirm.$$.out
 git apply "$P" || { echo "patch does not apply"; cd /; git -C /repo worktree remove --force "$W"; exit 2; }
-echo "== demo with the change (want exit 1)"; PYTHONPATH="$W" PYTHONDONTWRITEBYTECODE=1 /venv/bin/python -W ignore "$D" >/tmp/confirm.out 2>&1; echo "exit=$?"; tail -3 /tmp/confirm.out
+echo "== demo with the change (want exit 1)"; PYTHONPATH="$W" PYTHONDONTWRITEBYTECODE=1 /venv/bin/python -W ignore "$D" >/tmp/confirm.$$.out 2>&1; echo "exit=$?"; tail -3 /tmp/confirm.$$.out
 echo "== test suite with the change (want 124 passed)"; PYTHONPATH="$W" /venv/bin/python -m pytest -q -p no:cacheprovider PyXAB/tests 2>&1 | tail -1
 cd /; git -C /repo worktree remove --force "$W"
